@@ -1533,6 +1533,353 @@ theorem runSave_nofault_ok (cfg : Cfg) (fs0 : FS) (e : Nat) (body : Body) (plan 
     exact finish_ok cfg fs0 plan hp _ db' us' W' w1 (by rcases hdest with h | h; exact Or.inr h; exact Or.inl h)
       (by rw [e2, e1]; rfl)
 
+/-! ### without faults the recorded trace is exactly C04's `saverTrace` -/
+
+/-- a call that the plan lets through and the kernel accepts: success, event appended -/
+theorem call_pass_tr (fs0 : FS) (plan : Plan) (m : M) (s s' : St) (W : Bytes) (ev : Ev) (hp : plan m.n = .pass)
+    (h : J fs0 m s W) (hs : s.step ev = some s') (hf : ∃ fs', m.fs.step ev = .ok fs') :
+    (call plan m ev).1 = none ∧ J fs0 (call plan m ev).2 s' (W ++ evWrites ev) ∧ (call plan m ev).2.tr = m.tr ++ [ev] := by
+  have ok := call_pass_ok plan m ev hp hf
+  obtain ⟨hc, _⟩ := J_call fs0 plan m s s' W ev h hs
+  rcases hc with ⟨_, hj, _, ht⟩ | ⟨hr, _⟩
+  · exact ⟨ok, hj, ht⟩
+  · exact absurd ok hr
+
+theorem runWrites_tr (fs0 : FS) (plan : Plan) (hp : ∀ k, plan k = .pass) :
+    ∀ (ws : List (Bytes × Nat)) (m : M) (db us : Bool) (W : Bytes), J fs0 m ⟨.part, true, db, us⟩ W →
+    (runWrites plan m ws).2.tr = m.tr ++ ws.map (fun w => Ev.write w.1 w.2)
+  | [], m, db, us, W, h => by simp [runWrites]
+  | w :: ws, m, db, us, W, h => by
+    simp only [runWrites]
+    have hs1 : (St.mk .part true db us).step (.write w.1 w.2) = some ⟨.part, true, true, true⟩ := by simp [St.step]
+    obtain ⟨a, b, c⟩ := call_pass_tr fs0 plan m _ _ W (.write w.1 w.2) (hp _) h hs1
+      (step_ok_open fs0 m _ W h _ rfl (by simp) (Or.inr (Or.inr (Or.inr (Or.inr ⟨_, _, rfl⟩)))))
+    cases hcall : call plan m (.write w.1 w.2) with
+    | mk r1 m1 =>
+      rw [hcall] at a b c
+      simp only at a b c; subst a
+      dsimp only
+      rw [runWrites_tr fs0 plan hp ws m1 true true _ b, c]
+      simp
+
+theorem callClose_pass (plan : Plan) (m : M) (hp : plan m.n = .pass) : callClose plan m = call plan m .close := by
+  simp [callClose, call, hp]
+
+theorem syncClose_tr (fs0 : FS) (plan : Plan) (hp : ∀ k, plan k = .pass) (m : M) (db us : Bool) (W : Bytes)
+    (h : J fs0 m ⟨.part, true, db, us⟩ W) :
+    (syncClose plan m).2.tr = m.tr ++ [Ev.flush, Ev.fsync, Ev.close] := by
+  unfold syncClose
+  have hs1 : (St.mk .part true db us).step .flush = some ⟨.part, true, false, us || db⟩ := by simp [St.step]
+  obtain ⟨a1, b1, c1⟩ := call_pass_tr fs0 plan m _ _ W .flush (hp _) h hs1 (step_ok_open fs0 m _ W h _ rfl (by simp) (Or.inl rfl))
+  simp only [evWrites, List.append_nil] at b1
+  have hs2 : (St.mk .part true false (us || db)).step .fsync = some ⟨.part, true, false, false⟩ := by simp [St.step]
+  obtain ⟨a2, b2, c2⟩ := call_pass_tr fs0 plan _ _ _ W .fsync (hp _) b1 hs2 (step_ok_open fs0 _ _ W b1 _ rfl (by simp) (Or.inr (Or.inl rfl)))
+  simp only [evWrites, List.append_nil] at b2
+  have hs3 : (St.mk .part true false false).step .close = some ⟨.part, false, false, false⟩ := by simp [St.step]
+  obtain ⟨a3, b3, c3⟩ := call_pass_tr fs0 plan _ _ _ W .close (hp _) b2 hs3 (step_ok_open fs0 _ _ W b2 _ rfl (by simp) (Or.inr (Or.inr (Or.inl rfl))))
+  simp only [a1]
+  rw [callClose_pass plan _ (hp _), c3, c2, c1]
+  simp
+
+theorem publish_tr (cfg : Cfg) (fs0 : FS) (plan : Plan) (hp : ∀ k, plan k = .pass) (m : M) (W : Bytes)
+    (h : J fs0 m ⟨.part, false, false, false⟩ W) (hd : cfg.overwrite = true ∨ m.fs.dir.dest = none) :
+    (publish cfg plan m).2.tr = m.tr ++ (if cfg.overwrite then [Ev.renamePartDest] else [Ev.linkPartDest, Ev.unlinkPart]) := by
+  unfold publish
+  cases how : cfg.overwrite with
+  | true =>
+    simp only [if_true]
+    have hs1 : (St.mk .part false false false).step .renamePartDest = some ⟨.done, false, false, false⟩ := by simp [St.step]
+    obtain ⟨a1, b1, c1⟩ := call_pass_tr fs0 plan m _ _ W .renamePartDest (hp _) h hs1 (step_ok_part fs0 m _ W h _ (Or.inl rfl) (Or.inr (Or.inl rfl)))
+    cases hcall : call plan m .renamePartDest with
+    | mk r1 m1 => rw [hcall] at a1 c1; simp only at a1 c1; subst a1; exact c1
+  | false =>
+    simp only [Bool.false_eq_true, if_false]
+    have hdn : m.fs.dir.dest = none := by
+      rcases hd with h | h
+      · simp [how] at h
+      · exact h
+    have hs1 : (St.mk .part false false false).step .linkPartDest = some ⟨.linked, false, false, false⟩ := by simp [St.step]
+    obtain ⟨a1, b1, c1⟩ := call_pass_tr fs0 plan m _ _ W .linkPartDest (hp _) h hs1
+      (step_ok_part fs0 m _ W h _ (Or.inl rfl) (Or.inr (Or.inr (Or.inr ⟨rfl, hdn⟩))))
+    simp only [evWrites, List.append_nil] at b1
+    cases hcall : call plan m .linkPartDest with
+    | mk r1 m1 =>
+      rw [hcall] at a1 b1 c1; simp only at a1 b1 c1; subst a1
+      dsimp only
+      have hs2 : (St.mk .linked false false false).step .unlinkPart = some ⟨.done, false, false, false⟩ := by simp [St.step]
+      obtain ⟨a2, b2, c2⟩ := call_pass_tr fs0 plan m1 _ _ W .unlinkPart (hp _) b1 hs2 (step_ok_part fs0 m1 _ W b1 _ (Or.inr rfl) (Or.inl rfl))
+      cases hcall2 : call plan m1 .unlinkPart with
+      | mk r2 m2 => rw [hcall2] at a2 c2; simp only at a2 c2; subst a2; dsimp only; rw [c2, c1]; simp
+
+theorem rmPart_tr (cfg : Cfg) (fs0 : FS) (plan : Plan) (hp : ∀ k, plan k = .pass) (m : M) (s : St) (W : Bytes)
+    (h : J fs0 m s W) (hph : s.phase = .part) :
+    (rmPart cfg plan m).tr = m.tr ++ (if cfg.rmPartOnExc then [Ev.unlinkPart] else []) := by
+  unfold rmPart
+  cases cfg.rmPartOnExc with
+  | false => simp
+  | true =>
+    simp only [if_true]
+    obtain ⟨ph, op, db, us⟩ := s
+    simp at hph; subst hph
+    have hs1 : (St.mk .part op db us).step .unlinkPart = some ⟨.aborted, op, db, us⟩ := by simp [St.step]
+    obtain ⟨_, _, c1⟩ := call_pass_tr fs0 plan m _ _ W .unlinkPart (hp _) h hs1 (step_ok_part fs0 m _ W h _ (Or.inl rfl) (Or.inl rfl))
+    exact c1
+
+/-- **Without faults the saver performs exactly C04's `saverTrace`** (so C04's theorems about
+    `saverTrace` are theorems about the fault-free runs of the model that the C05 correspondence
+    compares with the real code) -/
+theorem runSave_nofault_trace (cfg : Cfg) (fs0 : FS) (e : Nat) (body : Body) (plan : Plan) (hp : ∀ k, plan k = .pass)
+    (hpart : fs0.dir.part = none ∨ cfg.overwritePart = true)
+    (hdest : fs0.dir.dest = none ∨ cfg.overwrite = true) :
+    (runSave cfg body plan fs0 e).2.tr = saverTrace cfg fs0 body := by
+  unfold runSave
+  have ok1 := setup_ok cfg fs0 e plan hp hpart hdest
+  obtain ⟨sok, _⟩ := setup_spec cfg fs0 e plan
+  have e1 := setup_envDone cfg plan (M.start fs0 e) (noEnv_of_pass plan hp)
+  cases hsetup : setup cfg plan (M.start fs0 e) with
+  | mk r1 m1 =>
+    rw [hsetup] at ok1 sok e1
+    simp only at ok1 sok e1
+    subst ok1
+    dsimp only
+    obtain ⟨k1, _, _, _, ⟨p, c, k5, k6⟩, _⟩ := sok rfl
+    have hpc := k6 (noEnv_of_pass plan hp) (fun k h => by rw [hp k] at h; cases h)
+    have hpp : p = (choosePerms cfg fs0).1 := by rw [← hpc]
+    have hcc : c = (choosePerms cfg fs0).2 := by rw [← hpc]
+    subst hpp; subst hcc
+    have ok2 := runWrites_ok fs0 plan hp body.writes m1 false false [] k1
+    have t2 := runWrites_tr fs0 plan hp body.writes m1 false false [] k1
+    obtain ⟨db', us', W', w1, _⟩ := runWrites_spec fs0 plan body.writes m1 false false [] k1
+    have e2 := runWrites_envDone plan (noEnv_of_pass plan hp) body.writes m1
+    have t3 := syncClose_tr fs0 plan hp _ db' us' W' w1
+    have ok3 := syncClose_ok fs0 plan hp _ db' us' W' w1
+    obtain ⟨u, hj3, h31, _⟩ := syncClose_spec fs0 plan _ db' us' W' w1
+    have e3 := syncClose_envDone plan (runWrites plan m1 body.writes).2 (noEnv_of_pass plan hp)
+    unfold finish
+    cases hsc : syncClose plan (runWrites plan m1 body.writes).2 with
+    | mk r3 m3 =>
+      rw [hsc] at t3 ok3 hj3 h31 e3
+      simp only at t3 ok3 hj3 h31 e3
+      subst ok3
+      obtain ⟨rfl, _⟩ := h31 rfl
+      dsimp only
+      simp only [blockOutcome, ok2]
+      cases hr : body.raises with
+      | true =>
+        simp only [if_true]
+        rw [rmPart_tr cfg fs0 plan hp m3 _ W' hj3 rfl, t3, t2, k5]
+        simp [saverTrace, hr, List.append_assoc]
+      | false =>
+        simp only [Bool.false_eq_true, if_false]
+        have hd3 : cfg.overwrite = true ∨ m3.fs.dir.dest = none := by
+          rcases hdest with hd | hd
+          · right
+            have := hj3.dest (by simp [St.published])
+            rw [this, e3, e2, e1]; simpa [M.start] using hd
+          · exact Or.inl hd
+        rw [publish_tr cfg fs0 plan hp m3 W' hj3 hd3, t3, t2, k5]
+        simp [saverTrace, hr, List.append_assoc]
+
+/-! ### the file system of a run (no interference) is C04's `exec` of the recorded trace -/
+
+/-- the machine's file system is what C04's `exec` makes of the recorded events -/
+def X (fs0 : FS) (m : M) : Prop := exec fs0 m.tr = some m.fs
+
+theorem exe_X (fs0 : FS) (m : M) (ev : Ev) (h : X fs0 m) : X fs0 (exe m ev).2 := by
+  unfold exe
+  split
+  · exact h
+  · rename_i fs' hf
+    show exec fs0 (m.tr ++ [ev]) = some fs'
+    rw [exec_append, h]
+    simp [exec, hf]
+
+theorem call_X (fs0 : FS) (plan : Plan) (m : M) (ev : Ev) (hp : NoEnv plan) (h : X fs0 m) : X fs0 (call plan m ev).2 := by
+  unfold call
+  cases hpl : plan m.n with
+  | fail e => exact h
+  | pass => exact exe_X fs0 m ev h
+  | appear => exact absurd hpl (hp m.n)
+
+theorem callClose_X (fs0 : FS) (plan : Plan) (m : M) (hp : NoEnv plan) (h : X fs0 m) : X fs0 (callClose plan m).2 := by
+  unfold callClose
+  cases hpl : plan m.n with
+  | fail e =>
+    dsimp only
+    split
+    · rename_i fs' hf
+      show exec fs0 (m.tr ++ [Ev.close]) = some fs'
+      rw [exec_append, h]
+      simp [exec, hf]
+    · exact h
+  | pass => exact exe_X fs0 m _ h
+  | appear => exact absurd hpl (hp m.n)
+
+theorem callStat_X (fs0 : FS) (plan : Plan) (m : M) (hp : NoEnv plan) (h : X fs0 m) : X fs0 (callStat plan m).2 := by
+  unfold callStat
+  cases hpl : plan m.n with
+  | fail e => dsimp only; split <;> exact h
+  | pass => exact h
+  | appear => exact absurd hpl (hp m.n)
+
+theorem rmPart_X (fs0 : FS) (cfg : Cfg) (plan : Plan) (m : M) (hp : NoEnv plan) (h : X fs0 m) : X fs0 (rmPart cfg plan m) := by
+  unfold rmPart
+  split
+  · exact call_X fs0 plan m _ hp h
+  · exact h
+
+theorem openPartFile_X (fs0 : FS) (cfg : Cfg) (plan : Plan) (m : M) (p : Nat) (c : Bool) (hp : NoEnv plan) (h : X fs0 m) :
+    X fs0 (openPartFile cfg plan m p c).2 := by
+  unfold openPartFile
+  have e1 := call_X fs0 plan m (.openPart true true p) hp h
+  cases h1 : call plan m (.openPart true true p) with
+  | mk r1 m1 =>
+    rw [h1] at e1
+    cases r1 with
+    | some e => exact e1
+    | none =>
+      dsimp only
+      have e2 := call_X fs0 plan m1 .noop hp e1
+      cases h2 : call plan m1 .noop with
+      | mk r2 m2 =>
+        rw [h2] at e2
+        cases r2 with
+        | some e =>
+          dsimp only
+          exact rmPart_X fs0 cfg plan _ hp (call_X fs0 plan m2 _ hp e2)
+        | none =>
+          dsimp only
+          cases c with
+          | false => simp only [Bool.false_eq_true, if_false]; exact e2
+          | true =>
+            simp only [if_true]
+            have e3 := call_X fs0 plan m2 (.chmodPart p) hp e2
+            cases h3 : call plan m2 (.chmodPart p) with
+            | mk r3 m3 =>
+              rw [h3] at e3
+              cases r3 with
+              | some e =>
+                dsimp only
+                exact rmPart_X fs0 cfg plan _ hp (callClose_X fs0 plan m3 hp e3)
+              | none => exact e3
+
+theorem setup_X (fs0 : FS) (cfg : Cfg) (plan : Plan) (m : M) (hp : NoEnv plan) (h : X fs0 m) :
+    X fs0 (setup cfg plan m).2 := by
+  unfold setup
+  split
+  · exact h
+  · have key : ∀ (r1 : Option Errno) (m1 : M), X fs0 m1 →
+        X fs0 (match r1 with
+          | some e => (some e, m1)
+          | none =>
+            match cfg.perms with
+            | some p => openPartFile cfg plan m1 p true
+            | none =>
+              match callStat plan m1 with
+              | (.error e, m2) => (some e, m2)
+              | (.ok (some mode), m2) => openPartFile cfg plan m2 mode true
+              | (.ok none, m2) => openPartFile cfg plan m2 RW_PERMS false).2 := by
+      intro r1 m1 h1
+      cases r1 with
+      | some e => exact h1
+      | none =>
+        dsimp only
+        cases cfg.perms with
+        | some p => exact openPartFile_X fs0 cfg plan _ _ _ hp h1
+        | none =>
+          dsimp only
+          have e2 := callStat_X fs0 plan m1 hp h1
+          cases h2 : callStat plan m1 with
+          | mk rs m2 =>
+            rw [h2] at e2
+            cases rs with
+            | error e => exact e2
+            | ok v =>
+              cases v with
+              | some md => exact openPartFile_X fs0 cfg plan _ _ _ hp e2
+              | none => exact openPartFile_X fs0 cfg plan _ _ _ hp e2
+    have hx : X fs0 ((if cfg.overwritePart && m.fs.dir.part.isSome then call plan m .unlinkPart else (none, m)) : Option Errno × M).2 := by
+      split
+      · exact call_X fs0 plan m .unlinkPart hp h
+      · exact h
+    generalize (if cfg.overwritePart && m.fs.dir.part.isSome then call plan m .unlinkPart else (none, m) : Option Errno × M) = x at hx
+    obtain ⟨r1, m1⟩ := x
+    exact key r1 m1 hx
+
+theorem runWrites_X (fs0 : FS) (plan : Plan) (hp : NoEnv plan) : ∀ (ws : List (Bytes × Nat)) (m : M),
+    X fs0 m → X fs0 (runWrites plan m ws).2
+  | [], m, h => h
+  | w :: ws, m, h => by
+    simp only [runWrites]
+    have e1 := call_X fs0 plan m (.write w.1 w.2) hp h
+    cases h1 : call plan m (.write w.1 w.2) with
+    | mk r1 m1 =>
+      rw [h1] at e1
+      cases r1 with
+      | some e => exact e1
+      | none => exact runWrites_X fs0 plan hp ws m1 e1
+
+theorem syncClose_X (fs0 : FS) (plan : Plan) (m : M) (hp : NoEnv plan) (h : X fs0 m) : X fs0 (syncClose plan m).2 := by
+  unfold syncClose
+  dsimp only
+  apply callClose_X fs0 plan _ hp
+  have e1 := call_X fs0 plan m .flush hp h
+  cases h1 : (call plan m .flush).1 with
+  | some e => exact e1
+  | none => exact call_X fs0 plan _ _ hp e1
+
+theorem publish_X (fs0 : FS) (cfg : Cfg) (plan : Plan) (m : M) (hp : NoEnv plan) (h : X fs0 m) : X fs0 (publish cfg plan m).2 := by
+  unfold publish
+  split
+  · have e1 := call_X fs0 plan m .renamePartDest hp h
+    cases h1 : call plan m .renamePartDest with
+    | mk r1 m1 =>
+      rw [h1] at e1
+      cases r1 with
+      | some e => exact rmPart_X fs0 cfg plan _ hp e1
+      | none => exact e1
+  · have e1 := call_X fs0 plan m .linkPartDest hp h
+    cases h1 : call plan m .linkPartDest with
+    | mk r1 m1 =>
+      rw [h1] at e1
+      cases r1 with
+      | some e => exact rmPart_X fs0 cfg plan _ hp e1
+      | none =>
+        dsimp only
+        have e2 := call_X fs0 plan m1 .unlinkPart hp e1
+        cases h2 : call plan m1 .unlinkPart with
+        | mk r2 m2 =>
+          rw [h2] at e2
+          cases r2 with
+          | some e => exact rmPart_X fs0 cfg plan _ hp e2
+          | none => exact e2
+
+theorem finish_X (fs0 : FS) (cfg : Cfg) (plan : Plan) (m : M) (b : Option Outcome) (hp : NoEnv plan) (h : X fs0 m) :
+    X fs0 (finish cfg plan m b).2 := by
+  unfold finish
+  have e1 := syncClose_X fs0 plan m hp h
+  cases h1 : syncClose plan m with
+  | mk r1 m1 =>
+    rw [h1] at e1
+    cases r1 with
+    | some e => exact rmPart_X fs0 cfg plan _ hp e1
+    | none =>
+      dsimp only
+      cases b with
+      | some x => exact rmPart_X fs0 cfg plan _ hp e1
+      | none => exact publish_X fs0 cfg plan _ hp e1
+
+theorem runSave_X (cfg : Cfg) (body : Body) (plan : Plan) (fs0 : FS) (e : Nat) (hp : NoEnv plan) :
+    exec fs0 (runSave cfg body plan fs0 e).2.tr = some (runSave cfg body plan fs0 e).2.fs := by
+  unfold runSave
+  have e1 := setup_X fs0 cfg plan (M.start fs0 e) hp (by simp [X, M.start, exec])
+  cases h1 : setup cfg plan (M.start fs0 e) with
+  | mk r1 m1 =>
+    rw [h1] at e1
+    cases r1 with
+    | some x => exact e1
+    | none => exact finish_X fs0 cfg plan _ _ hp (runWrites_X fs0 plan hp _ _ e1)
+
 /-! ### small facts used by the property theorems -/
 
 theorem res_pub {cfg fs0 e body plan o m s W} (r : Res cfg fs0 e body plan o m s W) :
